@@ -75,7 +75,7 @@ def plan(tier, seed):
     if tier == "quick":
         n, per, api = 16, 220, 20
     else:
-        n, per, api = 64, 600, 40
+        n, per, api = 64, 750, 50
     return [{"seed": seed * 1000 + i, "n": per, "api": api, "tier": tier} for i in range(n)]
 
 
